@@ -426,6 +426,74 @@ pub fn prop(tier: Tier, seed: u64) -> Prop {
     }
 
     // ------------------------------------------------------------------------------------------
+    // (2'') crop boxes aligned with the zeros of the kernels, and boxes of denormal width, in a
+    //       two-pass resize. A sample centre that sits exactly a whole number of kernel periods
+    //       away from a pixel centre gives that pixel an exact zero weight; the coefficient table
+    //       trims leading/trailing zeros per window, so the first window can start *after* the
+    //       second one. A box a denormal wide has a scale that underflows to 0.
+    // ------------------------------------------------------------------------------------------
+    {
+        const ZPT: [PT; 5] = [PT::U8, PT::U8x4, PT::U16, PT::F32, PT::I32];
+        let zf: Vec<Alg> = FILT.iter().flat_map(|f| [Alg::Conv(*f), Alg::Interp(*f)]).collect();
+        // crop length along the aligned axis as (numerator, denominator) x n_out, or an absolute tiny length
+        const LENS: [(f64, bool); 7] = [(0.25, true), (0.5, true), (2.0, true), (3.0, true), (1.5, true), (5e-324, false), (2.3e-308, false)];
+        let dimsz = vec![zf.len() as u64, 8, LENS.len() as u64, 16, 2];
+        let (dz, bz) = (dimsz.clone(), bes.clone());
+        p.spaces.push(
+            Space::new("kernel-zero aligned and denormal crop boxes in two-pass resizes: filter x {Conv,Interp} x n_out 1..8 x box length {n_out/4, n_out/2, 2 n_out, 3 n_out, 1.5 n_out, 5e-324, 2.3e-308} x origin k/8 x axis (5 pixel types x back-ends inside, fenced)", product(&dimsz), move |idx, ctx| {
+                let mut d = [0usize; 5];
+                decode(idx, &dz, &mut d);
+                let alg = zf[d[0]];
+                let n_out = d[1] as u32 + 1;
+                let (lv, rel) = LENS[d[2]];
+                let len = if rel { lv * n_out as f64 } else { lv };
+                let left = d[3] as f64 / 8.0;
+                let axis_x = d[4] == 0;
+                let n_in = ((left + len).ceil() as u32).max(1) + 2;
+                ctx.sample(|| json!({"alg": format!("{:?}", alg), "n_out": n_out, "crop_origin": left, "crop_length": format!("{:e}", len), "n_in": n_in, "aligned_axis": if axis_x { "x" } else { "y" }}));
+                if ctx.describe_only {
+                    return;
+                }
+                // the other axis is resized too (5 -> 3), so that both passes run
+                let (sw, sh, dw, dh) = if axis_x { (n_in, 5, n_out, 3) } else { (5, n_in, 3, n_out) };
+                let ca = Crop1 { start: left, len };
+                let co = Crop1 { start: 0.0, len: 5.0 };
+                let (cx, cy) = if axis_x { (ca, co) } else { (co, ca) };
+                for (pi, &pt) in ZPT.iter().enumerate() {
+                    for &be in bz.iter() {
+                        if pt.ck() == CK::I32 && be != BE::None {
+                            continue;
+                        }
+                        let src = content(pt, sw, sh, seed ^ idx ^ pi as u64);
+                        let mut o = Opts::new(alg);
+                        o.cx = Some(cx);
+                        o.cy = Some(cy);
+                        o.alpha = pt.has_alpha() && idx % 2 == 0;
+                        let r = guarded(|| {
+                            fenced(|| {
+                                let mut rz = new_resizer(be);
+                                let mut dst = Raw::filled(pt, dw, dh, 0x5A);
+                                let r = resize_into(&mut rz, &src, &mut dst, &o);
+                                (r.is_ok(), fnv(dst.bytes()))
+                            })
+                        });
+                        ctx.ops += 1;
+                        match r {
+                            Ok((ok, h)) => ctx.outcome(mix(ok as u64, h)),
+                            Err((loc, msg)) => ctx.violation(format!("C03|aligned crop|panic|{}|{}", loc, panic_class(&msg)), || {
+                                json!({"src": [sw, sh], "dst": [dw, dh], "alg": format!("{:?}", alg), "crop_x": format!("{:?}", cx), "crop_y": format!("{:?}", cy), "pixel": format!("{:?}", pt), "backend": format!("{:?}", be), "message": msg, "panic_at": loc})
+                            }),
+                        }
+                        ctx.class(mix(mix(pt.idx() as u64, be as u64), mix(d[0] as u64 + 700, mix(d[2] as u64, d[4] as u64))));
+                    }
+                }
+                ctx.nontrivial += 1;
+            })
+            .isolated(),
+        );
+    }
+
+    // ------------------------------------------------------------------------------------------
     // (2a) kernel sweep in fenced memory: every residue of kernel length / row bytes / line count
     //      (the SIMD main loops, remainders and tails) with the source rows, the destination, the
     //      coefficient vectors and the scratch images each ending at a guard page
